@@ -187,20 +187,35 @@ func cpuOpTable(fn *ast.FuncDecl) (t6502, t65c02 map[int]string, err error) {
 			case *ast.IfStmt:
 				// if m == Model6502 { ... }  /  if m == Model65C02 { ... }
 				be, ok := v.Cond.(*ast.BinaryExpr)
-				if !ok || be.Op != token.EQL || v.Else != nil || v.Init != nil {
+				if !ok || be.Op != token.EQL || v.Init != nil {
 					return fmt.Errorf("unexpected if in New6502 at %v", fs.Position(v.Pos()))
 				}
 				id, ok := be.Y.(*ast.Ident)
 				if !ok {
 					return fmt.Errorf("unexpected if condition in New6502 at %v", fs.Position(v.Pos()))
 				}
+				// an else branch applies to the other model (there are exactly two)
+				var elseList []ast.Stmt
+				if v.Else != nil {
+					eb, isBlock := v.Else.(*ast.BlockStmt)
+					if !isBlock {
+						return fmt.Errorf("unexpected else-if in New6502 at %v", fs.Position(v.Pos()))
+					}
+					elseList = eb.List
+				}
 				switch id.Name {
 				case "Model6502":
 					if err := walk(v.Body.List, in6502, false); err != nil {
 						return err
 					}
+					if err := walk(elseList, false, in65c02); err != nil {
+						return err
+					}
 				case "Model65C02":
 					if err := walk(v.Body.List, false, in65c02); err != nil {
+						return err
+					}
+					if err := walk(elseList, in6502, false); err != nil {
 						return err
 					}
 				default:
